@@ -16,7 +16,15 @@ What is asserted (per family, see the functions below):
   * polyline builders give exactly the stated chains / segments,
   * history: each case makes two calls with the same argument objects and edits the first returned mesh in place in
     between; the second result must be as valid as the first, no argument (nor a shared default Vec or module-level
-    constant / cache, observed through the second call) may be modified, and the two results must not share state.
+    constant / cache, observed through the second call) may be modified, and the two results must not share state,
+  * call spelling: every call is made in one of three spellings of the documented signature (required arguments by position
+    and optional ones by keyword / everything by position in the documented order / everything by keyword), optional
+    parameters are left out so that the DOCUMENTED default applies (the oracle then expects the documented value), switches
+    are passed as bool / numpy.bool_ / 0-1, reals as float / int / numpy.float64, resolutions as int / numpy.int32 / int64,
+  * vector_field gets its arrays as ndarray / nested list / nested tuple / list of Vec, spherify_vertices also a list or
+    tuple of Vec; chain_of_vertices / vector_field of an empty (0,3) array give the empty polyline,
+  * dual_mesh / cylindrify_edges on an input mesh the caller has used before (attributes stored under their default names,
+    connectivity queried), also when the caller moved the vertices afterwards: the result describes the mesh as it is now.
 
 NOT asserted: outwardness of the orientation (undocumented, differs between generators; only sphere_fibonacci states it),
 face order, which diagonal triangulates a quad, the colours themselves, `colored`/`triangulate` combined with
@@ -44,7 +52,7 @@ RULE = ("One sub-check per generator family of mouette.procedural (all 20 public
         "input form of the transformations; explicit / defaulted optional arguments) plus realised real parameters (radii, "
         "centres, corner / end points, defects, length factors: a mix of round values, interval end points and arbitrary "
         "floats). Family sub-checks sample the lattice point and draw the reals with Hypothesis; sub-check 'lattice' holds "
-        "every lattice point of every family x 3 fixed pseudo-random real draws as a finite list (about 2500 realised cases, plus the documented default and test-suite resolutions) behind "
+        "every lattice point of every family x 3 fixed pseudo-random real draws as a finite list (about 4400 realised cases, plus the documented default and test-suite resolutions) behind "
         "a bare sampled_from, which Hypothesis enumerates without repetition: every thorough shard runs the whole list, the "
         "quick tier a random 1/8 per shard. dual_mesh is run on closed oriented manifold polygon surfaces built by the "
         "harness (platonic solids, prisms, antiprisms, bipyramids, tori, connected sums, unions; split / merge / flip / "
@@ -70,13 +78,31 @@ RULE = ("One sub-check per generator family of mouette.procedural (all 20 public
         "after every call (<gen>:config-changed) and the edge container must be the set of face sides. Sizes around powers "
         "of two: every factor pair with a*b in 250..262 (torus, sphere_uv, unit_grid; also (nu-1)(nv-1) in 255..257 and "
         "2ab in 126..130) and N in {126..129, 254..258} for the one-resolution generators and chain / segment counts are "
-        "lattice points; sub-check 'big' holds 14 realised cases with 2**15 / 2**16-sized results (255x257, 256x256, 257x255 "
+        "lattice points; sub-check 'big' holds 19 realised cases, 14 of them with 2**15 / 2**16-sized results (255x257, 256x256, 257x255 "
         "tori, uv spheres and grids, N = 32767 / 32768 cylinders, 65536-vertex chains; one call each; all of them in every "
         "thorough shard, one random case per quick shard). Reals close to special values: radius 1 +- 8e-6 / 1e-7 / 3e-10 "
         "(also with the centre left at its default), torus radii 1 +- 8e-6 and ratio 0.3 +- 2e-6, cylinder length 1 +- 8e-6, "
         "defects 1e-7, 1e-5, pi(1 +- 8e-6), max - 1e-7; integral reals passed as python int. dual_mesh, spherify_vertices "
         "and cylindrify_edges get a third call on a NEW input object of the same element counts (rigidly moved copy) after "
-        "the first input was deleted and garbage collected. non-trivial = two "
+        "the first input was deleted and garbage collected. CALL SPELLING (every case, every generator): the documented "
+        "parameter list is passed 'mixed' (required arguments by position, optional ones by keyword), 'pos' (all by position "
+        "in the documented order) or 'kw' (all by keyword, required ones included: P1=, mesh=, points=, vertices=, origins=), "
+        "1/3 each; with probability 1/3 a random non-empty subset of the optional parameters is OMITTED and the case takes "
+        "their documented defaults as expected values (cylinder radius 1 / N 50 / fill_caps True, torus 50 / 30 / 1 / 0.3 / "
+        "False, sphere_uv 30 / 50, icosphere 3, sphere_fibonacci radius 1 / build_surface True, ring open False / n_cover 1, "
+        "flat_ring n_cover 1, unit_grid / unit_triangle / hexahedra / tetrahedron / quad / chain switches False, "
+        "spherify_vertices n_subdiv 1 / radius 1e-2, cylindrify_edges N 50 / radius 5e-2, vector_field length_mult 1, "
+        "dual_mesh mode; resolution defaults only 1/4 of those times); boolean switches go as bool (1/2), numpy.bool_ or "
+        "0 / 1; real parameters as float, python int when integral, or numpy.float64 (1/4); integer parameters as int, "
+        "numpy.int32 or numpy.int64. COLLECTION FORMS: vector_field arrays as ndarray / list of lists / tuple of tuples / "
+        "list of Vec, spherify_vertices points also as list / tuple of Vec; chain_of_vertices and vector_field also on empty "
+        "(0,3) arrays (result: empty polyline). INPUT USED BEFORE (dual_mesh, cylindrify_edges; half of the cases): before "
+        "the first call the caller runs other library computations on the input mesh that store attributes under their "
+        "default names (face barycentres, circumcentres, areas, edge lengths) and query connectivity; class 'fresh' on the "
+        "geometry of the case, class 'stale' on an earlier geometry after which every vertex was moved in place to the "
+        "coordinates of the case - the oracle is the same (positions from the current vertices). Sub-check 'big' also holds "
+        "5 cases beyond 10**5 elements (317x317 uv sphere - the first case, run by every quick run -, 317x317 grid, "
+        "100003-point fibonacci cloud, 100001-vertex chain, 50001 vectors). non-trivial = two "
         "resolutions differ, or a boolean switch / n_cover / mode / optional argument is not at its default, or (for "
         "generators without such parameters) a centre / radius differs from the default; distinct = distinct realised cases.")
 ASSUMPTIONS = [
@@ -87,6 +113,15 @@ ASSUMPTIONS = [
     "dual_mesh: input closed, every vertex has >= 3 faces and the combinatorial dual is representable (two faces share at "
     "most one edge, dual faces have distinct vertex sets); config.sort_neighborhoods at its default (True)",
     "corner / centre points are passed as mouette Vec (what the docstrings name)",
+    "a documented parameter may be passed by position (documented order) or by its documented name; a boolean switch may be "
+    "a bool, a numpy.bool_ or 0 / 1; a real a float, int or numpy.float64; an integer an int or numpy.int32 / int64; an "
+    "omitted optional parameter takes the default its docstring / signature states",
+    "vector_field accepts whatever numpy.array turns into an (N,K) array (it says it sanitises its inputs); spherify_vertices "
+    "iterates over any sequence of points that is not a mesh; chain_of_vertices needs an ndarray (it reads .shape)",
+    "attributes a caller stored on an input mesh (under the library's default names) are the caller's data: a "
+    "transformation computes from the current vertices, whatever is stored",
+    "an empty point set for spherify_vertices is NOT generated (mesh.merge of nothing returns None in the unchanged library; "
+    "the statement promises nothing for it)",
     "config switch values under which the unchanged library already fails are not drawn (reported as findings): "
     "sort_neighborhoods=False for dual_mesh / octahedron / dodecahedron, complete_edges_from_faces=False for icosphere and "
     "spherify_vertices with >= 1 subdivision, complete_faces_from_cells=False for volume=True",
@@ -128,6 +163,29 @@ class Args:
             self.objs[name] = np.array(a, dtype=np.dtype(dtype) if dtype else (int if ints else float))
             self.snap[name] = np.array(a, dtype=float).tolist()
             self.read[name] = lambda o: np.asarray(o, dtype=float).tolist()
+        return self.objs[name]
+
+    def seq(self, name, a, form, ints=False, dtype=None):
+        """a point collection in the form the case names: numpy array (default), list of lists, tuple of tuples, list / tuple of Vec"""
+        if form in (None, "ndarray"):
+            return self.arr(name, a, ints, dtype)
+        if name not in self.objs:
+            import mouette as M
+            num = (lambda x: int(x)) if ints else (lambda x: float(x))
+            rows = [[num(x) for x in r] for r in a]
+            if form == "list":
+                o = rows
+            elif form == "tuple":
+                o = tuple(tuple(r) for r in rows)
+            elif form == "vecs":
+                o = [M.Vec(*r) for r in rows]
+            elif form == "vectuple":
+                o = tuple(M.Vec(*r) for r in rows)
+            else:
+                raise AssertionError("unknown collection form " + str(form))
+            self.objs[name] = o
+            self.snap[name] = [[float(x) for x in r] for r in a]
+            self.read[name] = lambda o: [[float(x) for x in r] for r in o]
         return self.objs[name]
 
     def obj(self, name, factory, reader):
@@ -340,6 +398,34 @@ POISON = {
 }
 
 
+def used_before(M, make, X, how, size):
+    """The input mesh of a transformation as the caller hands it over. how = None: freshly built. Otherwise the caller has
+    USED the mesh with other library calls before (attributes stored on it under their default names: face barycentres,
+    circumcentres, areas, edge lengths; connectivity and border queries answered). 'fresh': those were computed on
+    the geometry the mesh has now. 'stale': they were computed before the caller moved every vertex (in place) to the
+    coordinates of the case - whatever was stored on the mesh then describes the OLD geometry; the transformation is
+    documented as a function of the mesh (its current vertices), so it must not pick such values up."""
+    X = np.asarray(X, dtype=float)
+    if not how:
+        return make(X.tolist())
+    X0 = X if how == "fresh" else 0.5 * X[:, [1, 2, 0]] + np.array([0.75, -1.5, 0.25]) * float(size)
+    m = make(X0.tolist())
+    A = M.attributes
+    probes = [lambda: A.edge_length(m), lambda: m.connectivity.vertex_to_vertices(0)]
+    if hasattr(m, "faces"):
+        probes += [lambda: A.face_barycenter(m), lambda: A.face_circumcenter(m), lambda: A.face_area(m),
+                   lambda: m.connectivity.vertex_to_faces(0), lambda: m.is_vertex_on_border(0)]
+    for f in probes:
+        try:                    # these calls are the business of other properties; whether they succeed does not matter here
+            f()
+        except Exception:
+            pass
+    if how == "stale":
+        for i, row in enumerate(X.tolist()):
+            m.vertices[i][:] = row
+    return m
+
+
 def sibling_case(case):
     """the same case with its input geometry moved rigidly (coordinates cyclically permuted + translated): same element
     counts and connectivity, different coordinates"""
@@ -370,7 +456,10 @@ def label_args(case, ctx):
     if case.get("far"):
         ctx.label("far-from-origin")
     if case.get("np_ints"):
-        ctx.label("numpy-int-parameters")
+        ctx.label("numpy-int-parameters", "numpy-int=" + ("int64" if case["np_ints"] == "int64" else "int32"))
+    if case.get("np_floats"):
+        ctx.label("numpy-float-scalars")
+    ctx.label("flag-form=" + str(case.get("flag_form") or "bool"))
     if case.get("wide") == "pow2":
         ctx.label("pow2-boundary-size")
     if case.get("near_special"):
@@ -505,8 +594,47 @@ def sc_of(case, *xs):
 
 
 def I(case, n):
-    """integer parameter as passed to the generator: python int, or a numpy integer scalar (class 'numpy-int-parameters')"""
-    return np.int32(n) if case.get("np_ints") else int(n)
+    """integer parameter as passed to the generator: python int, or a numpy integer scalar (class 'numpy-int-parameters':
+    numpy.int32, or numpy.int64 when the case says 'int64')"""
+    k = case.get("np_ints")
+    return np.int64(n) if k == "int64" else np.int32(n) if k else int(n)
+
+
+def B(case, v):
+    """a boolean switch as passed to the generator: bool, numpy.bool_ or the integers 0 / 1 (class 'flag-form=...')"""
+    form = case.get("flag_form") or "bool"
+    return np.bool_(bool(v)) if form == "numpy" else int(bool(v)) if form == "int" else bool(v)
+
+
+REQUIRED = "<required>"
+
+
+def omitted(case, *more):
+    """names of the optional parameters this case leaves out of the call (their documented defaults then apply)"""
+    return set(case.get("omit") or ()) | set(m for m in more if m)
+
+
+def spelled_call(ctx, pre, f, case, params, npos, omit=()):
+    """Call f with the parameters `params` = [(name, value)] (documented order) spelled as the case says:
+      spell 'mixed' (default): the first `npos` parameters by position, the others by keyword,
+      spell 'pos': all by position in the documented order, spell 'kw': all by keyword.
+    Parameters named in `omit` are left out (the case holds their documented default as the expected value); after an
+    omitted parameter the remaining ones are passed by keyword."""
+    spell = case.get("spell") or "mixed"
+    omit = set(omit)
+    args, kw, positional = [], {}, True
+    for i, (name, val) in enumerate(params):
+        if name in omit:
+            positional = False
+            continue
+        if spell == "kw" or (spell == "mixed" and i >= npos) or not positional:
+            kw[name] = val
+        else:
+            args.append(val)
+    ctx.label("spell=" + spell)
+    if omit:
+        ctx.label("omitted-defaults", *[f"omitted:{pre}.{n}" for n in sorted(omit)])
+    return ctx.call(pre, f, *args, **kw)
 
 
 def check_close(ctx, sig, got, exp, scale, what, tol=TOL):
@@ -596,8 +724,9 @@ class HypSrc:
 
 
 class RngSrc:
-    def __init__(self, rnd):
+    def __init__(self, rnd, no_omit=False):
         self.rnd = rnd
+        self.no_omit = no_omit          # variant 0 of every lattice point keeps the lattice point's own optional parameters
 
     def real(self, lo, hi, nice=()):
         if nice and self.rnd.random() < 0.3:
@@ -648,8 +777,31 @@ def is_pow2_size(*counts):
 
 
 def Rv(case, x):
-    """a real parameter as passed to the generator: float, or a python int when it is integral (class 'int-valued-scalars')"""
-    return int(x) if case.get("int_scalars") and float(x) == int(x) else float(x)
+    """a real parameter as passed to the generator: float, a python int when it is integral (class 'int-valued-scalars'),
+    or a numpy.float64 scalar (class 'numpy-float-scalars')"""
+    if case.get("int_scalars") and float(x) == int(x):
+        return int(x)
+    return np.float64(x) if case.get("np_floats") else float(x)
+
+
+HEAVY_DEFAULTS = ("n_lat", "n_long", "major_segments", "minor_segments", "N", "n_refine")      # documented defaults 30 / 50 / 3: large results
+
+
+def omit_defaults(src, case, table):
+    """With probability 1/3 (never for wide resolutions) a random non-empty subset of the optional parameters in `table`
+    ({case key = parameter name: documented default}) is left at its documented default: the case gets the default as
+    the value the oracle expects and the name is listed in case['omit'] (the call then does not pass it). Resolution
+    parameters (their defaults give results of 100 .. 1500 vertices) are kept in that subset only one time in four."""
+    case["omit"] = []
+    if case.get("wide") or getattr(src, "no_omit", False) or src.choice([0, 0, 1]) == 0:
+        return case
+    names = list(table)
+    sure = src.choice(names)
+    for name in names:
+        if (name == sure or src.choice([0, 0, 1])) and (name not in HEAVY_DEFAULTS or src.choice([0, 0, 0, 1])):
+            case[name] = table[name]
+            case["omit"].append(name)
+    return case
 
 
 def distinct_points(src, n, sep=0.25, ints=False):
@@ -707,6 +859,14 @@ def config_excluded(case, cfg):
 def common_flags(src, case):
     """flags every case carries: library-wide config switches of the case and the form of integer parameters"""
     flags = {"np_ints": src.choice([False] * 5 + [True]), "int_scalars": src.choice([False, False, True])}
+    if flags["np_ints"] and src.choice([0, 1]):
+        flags["np_ints"] = "int64"
+    # how the caller spells the call: required arguments by position + optional ones by keyword ('mixed'), everything by
+    # position in the documented order, or everything by keyword; switches as bool / numpy.bool_ / 0-1; reals as float or
+    # numpy.float64 (integral ones as int when int_scalars)
+    flags["spell"] = src.choice(["mixed", "pos", "kw"])
+    flags["flag_form"] = src.choice(["bool", "bool", "numpy", "int"])
+    flags["np_floats"] = src.choice([False, False, False, True])
     switches = [{}] * 6 + [{"sort_neighborhoods": False}, {"complete_edges_from_faces": False}, {"complete_faces_from_cells": False},
                            {"display_duplicate_attribute_warning": True}, {"export_edges_in_obj": False}]
     cfg = src.choice(switches)
@@ -807,10 +967,9 @@ def fn_tetrahedron(case, ctx, A):
     ctx.nontrivial(vol)
     pre = "tetrahedron"
     args = A.vecs("P", P, case.get("int_args"))
-    if vol or case["explicit"]:
-        ok, m = ctx.call(pre, M.procedural.tetrahedron, *args, volume=vol)
-    else:
-        ok, m = ctx.call(pre, M.procedural.tetrahedron, *args)
+    ok, m = spelled_call(ctx, pre, M.procedural.tetrahedron, case,
+                         list(zip(("P1", "P2", "P3", "P4"), args)) + [("volume", B(case, vol))], 4,
+                         omitted(case, None if vol or case["explicit"] else "volume"))
     if not ok:
         return
     r = check_surface(ctx, pre, m, nV=4, nF=4, arity=3, chi=2, loops=0, comps=1, cls="VolumeMesh" if vol else "SurfaceMesh")
@@ -839,6 +998,8 @@ HEXA_LATTICE = ([["hexahedron", c, t, v] for c in BOOL for t in BOOL for v in BO
 def build_hexa(p, src):
     gen, colored, triangulate, volume = p
     case = {"gen": gen, "colored": colored, "triangulate": triangulate, "volume": volume}
+    omit_defaults(src, case, {"colored": False, "triangulate": False, "volume": False} if gen == "hexahedron" else
+                  {"colored": False, "triangulate": False} if gen == "axis_aligned_cube" else {"colored": False, "volume": False})
     if gen == "axis_aligned_cube":
         return case
     S, ints = arg_class(src)
@@ -866,16 +1027,21 @@ def fn_hexahedron(case, ctx, A):
     ints = case.get("int_args")
     ctx.nontrivial(colored or tri or vol)
     pre = gen
+    om = omitted(case)
     if gen == "hexahedron":
         P = case["P"]
-        ok, m = ctx.call(pre, M.procedural.hexahedron, *A.vecs("P", P, ints), colored=colored, triangulate=tri, volume=vol)
+        ok, m = spelled_call(ctx, pre, M.procedural.hexahedron, case,
+                             list(zip(["P%d" % k for k in range(1, 9)], A.vecs("P", P, ints))) +
+                             [("colored", B(case, colored)), ("triangulate", B(case, tri)), ("volume", B(case, vol))], 8, om)
         corners = P
     elif gen == "axis_aligned_cube":
-        ok, m = ctx.call(pre, M.procedural.axis_aligned_cube, colored=colored, triangulate=tri)
+        ok, m = spelled_call(ctx, pre, M.procedural.axis_aligned_cube, case, [("colored", B(case, colored)), ("triangulate", B(case, tri))], 0, om)
         corners = UNIT_CUBE
     else:
         P = np.array(case["P"], dtype=float)
-        ok, m = ctx.call(pre, M.procedural.hexahedron_4pts, *A.vecs("P", case["P"], ints), colored=colored, volume=vol)
+        ok, m = spelled_call(ctx, pre, M.procedural.hexahedron_4pts, case,
+                             list(zip(("P1", "P2", "P3", "P4"), A.vecs("P", case["P"], ints))) +
+                             [("colored", B(case, colored)), ("volume", B(case, vol))], 4, om)
         X, Y = P[1] - P[0], P[2] - P[0]
         corners = [P[0], P[0] + X, P[0] + X + Y, P[0] + Y, P[3], P[3] + X, P[3] + X + Y, P[3] + Y]
     if not ok:
@@ -981,14 +1147,12 @@ def fn_platonic(case, ctx, A):
         ctx.label(f"icosahedron:uv={uv}")
         label_args(case, ctx)
         ctx.nontrivial(uv or rad != 1.0 or bool(np.any(c != 0)))
-        if case.get("defaults") is True:
-            ok, m = ctx.call(pre, M.procedural.icosahedron)
-        elif case.get("defaults") == "radius-only":
-            ok, m = ctx.call(pre, M.procedural.icosahedron, radius=Rv(case, rad))
-        elif uv:
-            ok, m = ctx.call(pre, M.procedural.icosahedron, A.vec("center", c, case.get("int_args")), Rv(case, rad), uv=True)
-        else:
-            ok, m = ctx.call(pre, M.procedural.icosahedron, center=A.vec("center", c, case.get("int_args")), radius=Rv(case, rad))
+        dfl = case.get("defaults")
+        om = omitted(case, "center" if dfl else None, "radius" if dfl is True else None,
+                     "uv" if not uv and (case.get("spell") or "mixed") == "mixed" else None)
+        ok, m = spelled_call(ctx, pre, M.procedural.icosahedron, case,
+                             [("center", None if dfl else A.vec("center", c, case.get("int_args"))), ("radius", Rv(case, rad)), ("uv", B(case, uv))],
+                             2 if uv else 0, om)
         nV, nF, ar = 12, 20, 3
     if not ok:
         return
@@ -1044,8 +1208,9 @@ def build_cylinder(p, src):
     P2 = [P1[k] + h * d[k] for k in range(3)]
     far = far_offset(src, S)
     N, wide = (N, "hazard") if N in HAZARD and N > 12 else widen(src, N)
-    return {"gen": "cylinder", "N": N, "fill_caps": caps, "axis": ax, "P1": placed([P1], S, far)[0], "P2": placed([P2], S, far)[0],
+    case = {"gen": "cylinder", "N": N, "fill_caps": caps, "axis": ax, "P1": placed([P1], S, far)[0], "P2": placed([P2], S, far)[0],
             "radius": float(radius(src) * S), "scale": S, "int_args": ints, "far": far, "wide": wide}
+    return omit_defaults(src, case, {"radius": 1.0, "N": 50, "fill_caps": True})
 
 
 def check_tube_geometry(ctx, pre, V, idx, A, B, rad, N, sc, what=""):
@@ -1074,14 +1239,17 @@ def check_regular_polygon(ctx, pre, V, loop, rad, sc, what):
 
 def fn_cylinder(case, ctx, A):
     import mouette as M
-    N, caps, rad = int(case["N"]), bool(case["fill_caps"]), float(case["radius"]) * (0.5 if A.round == 2 else 1.0)
+    om = omitted(case)
+    N, caps, rad = int(case["N"]), bool(case["fill_caps"]), float(case["radius"]) * (0.5 if A.round == 2 and "radius" not in om else 1.0)
     P1, P2 = np.array(case["P1"], float), np.array(case["P2"], float)
     ctx.label("axis=" + case["axis"], f"fill_caps={caps}", f"N={N}")
     label_args(case, ctx)
     ctx.nontrivial(not caps)
     pre = "cylinder"
     ints = case.get("int_args")
-    ok, m = ctx.call(pre, M.procedural.cylinder, A.vec("P1", P1, ints), A.vec("P2", P2, ints), radius=Rv(case, rad), N=I(case, N), fill_caps=caps)
+    ok, m = spelled_call(ctx, pre, M.procedural.cylinder, case,
+                         [("P1", A.vec("P1", P1, ints)), ("P2", A.vec("P2", P2, ints)), ("radius", Rv(case, rad)), ("N", I(case, N)),
+                          ("fill_caps", B(case, caps))], 2, om)
     if not ok:
         return
     r = check_surface(ctx, pre, m, nV=2 * N + (2 if caps else 0), nF=4 * N if caps else 2 * N, arity=3,
@@ -1120,8 +1288,15 @@ def build_torus(p, src):
             a, wide = widen(src, a)
         else:
             b, wide = widen(src, b)
-    return {"gen": "torus", "major_segments": a, "minor_segments": b, "triangulate": tri, "major_radius": float(R * S),
+    case = {"gen": "torus", "major_segments": a, "minor_segments": b, "triangulate": tri, "major_radius": float(R * S),
             "minor_radius": float(r * S), "scale": S, "wide": wide}
+    omit_defaults(src, case, {"major_segments": 50, "minor_segments": 30, "major_radius": 1.0, "minor_radius": 0.3, "triangulate": False})
+    if "major_radius" in case["omit"] or "minor_radius" in case["omit"]:
+        # the documented default radii (1 and 0.3) are absolute: unit scale, and the drawn radius keeps minor < major
+        R1 = 1.0 if "major_radius" in case["omit"] else float(R)
+        r1 = 0.3 if "minor_radius" in case["omit"] else float(round(r / R * R1, 6))
+        case.update(major_radius=R1, minor_radius=r1, scale=1.0)
+    return case
 
 
 def fn_torus(case, ctx, A):
@@ -1132,7 +1307,9 @@ def fn_torus(case, ctx, A):
     label_args(case, ctx)
     ctx.nontrivial(a != b or tri)
     pre = "torus"
-    ok, m = ctx.call(pre, M.procedural.torus, I(case, a), I(case, b), Rv(case, R), r0, triangulate=tri)
+    ok, m = spelled_call(ctx, pre, M.procedural.torus, case,
+                         [("major_segments", I(case, a)), ("minor_segments", I(case, b)), ("major_radius", Rv(case, R)),
+                          ("minor_radius", Rv(case, r0)), ("triangulate", B(case, tri))], 4, omitted(case))
     if not ok:
         return
     r = check_surface(ctx, pre, m, nV=a * b, nF=a * b * (2 if tri else 1), arity=3 if tri else 4, chi=0, loops=0, comps=1)
@@ -1162,7 +1339,7 @@ def build_sphere_uv(p, src):
             n_long, wide = widen(src, n_long)
     case = {"gen": "sphere_uv", "n_lat": n_lat, "n_long": n_long, "wide": wide}
     case.update(centre_radius(src, p[2]))
-    return case
+    return omit_defaults(src, case, {"n_lat": 30, "n_long": 50})
 
 
 def fn_sphere_uv(case, ctx, A):
@@ -1174,12 +1351,11 @@ def fn_sphere_uv(case, ctx, A):
     label_args(case, ctx)
     ctx.nontrivial(n_lat != n_long)
     pre = "sphere_uv"
-    if dflt:
-        ok, m = ctx.call(pre, M.procedural.sphere_uv, I(case, n_lat), I(case, n_long))
-    elif case.get("defaults") == "radius-only":
-        ok, m = ctx.call(pre, M.procedural.sphere_uv, I(case, n_lat), I(case, n_long), radius=Rv(case, rad))
-    else:
-        ok, m = ctx.call(pre, M.procedural.sphere_uv, I(case, n_lat), I(case, n_long), center=A.vec("center", c, case.get("int_args")), radius=Rv(case, rad))
+    dfl = case.get("defaults")
+    ok, m = spelled_call(ctx, pre, M.procedural.sphere_uv, case,
+                         [("n_lat", I(case, n_lat)), ("n_long", I(case, n_long)),
+                          ("center", None if dfl else A.vec("center", c, case.get("int_args"))), ("radius", Rv(case, rad))], 2,
+                         omitted(case, "center" if dfl else None, "radius" if dflt else None))
     if not ok:
         return
     # vertex count pinned by tests/test_procedural.py::test_sphere_uv ("don't forget the poles")
@@ -1204,7 +1380,7 @@ def fn_sphere_uv(case, ctx, A):
 def build_icosphere(p, src):
     case = {"gen": "icosphere", "n_refine": p[0]}
     case.update(centre_radius(src, p[1]))
-    return case
+    return omit_defaults(src, case, {"n_refine": 3})
 
 
 def fn_icosphere(case, ctx, A):
@@ -1216,12 +1392,10 @@ def fn_icosphere(case, ctx, A):
     label_args(case, ctx)
     ctx.nontrivial(rad != 1.0 or bool(np.any(c != 0)))
     pre = "icosphere"
-    if dflt:
-        ok, m = ctx.call(pre, M.procedural.icosphere, I(case, n))
-    elif case.get("defaults") == "radius-only":
-        ok, m = ctx.call(pre, M.procedural.icosphere, I(case, n), radius=Rv(case, rad))
-    else:
-        ok, m = ctx.call(pre, M.procedural.icosphere, I(case, n), A.vec("center", c, case.get("int_args")), Rv(case, rad))
+    dfl = case.get("defaults")
+    ok, m = spelled_call(ctx, pre, M.procedural.icosphere, case,
+                         [("n_refine", I(case, n)), ("center", None if dfl else A.vec("center", c, case.get("int_args"))), ("radius", Rv(case, rad))],
+                         1, omitted(case, "center" if dfl else None, "radius" if dflt else None))
     if not ok:
         return
     r = check_surface(ctx, pre, m, nV=10 * 4 ** n + 2, nF=20 * 4 ** n, arity=3, chi=2, loops=0, comps=1)
@@ -1239,17 +1413,20 @@ FIB_LATTICE = ([[n, s] for n in list(range(1, 41)) + [100, 300] for s in BOOL if
 def build_fibonacci(p, src):
     S, _ = arg_class(src)
     n, wide = (p[0], "hazard") if p[0] > 40 else widen(src, p[0])
-    return {"gen": "sphere_fibonacci", "n_pts": n, "build_surface": p[1], "radius": float(radius(src) * S), "scale": S, "wide": wide}
+    case = {"gen": "sphere_fibonacci", "n_pts": n, "build_surface": p[1], "radius": float(radius(src) * S), "scale": S, "wide": wide}
+    return omit_defaults(src, case, {"radius": 1.0, "build_surface": True}) if n >= 4 else case
 
 
 def fn_fibonacci(case, ctx, A):
     import mouette as M
-    n, surf, rad = int(case["n_pts"]), bool(case["build_surface"]), float(case["radius"]) * (0.5 if A.round == 2 else 1.0)
+    om = omitted(case)
+    n, surf, rad = int(case["n_pts"]), bool(case["build_surface"]), float(case["radius"]) * (0.5 if A.round == 2 and "radius" not in om else 1.0)
     label_args(case, ctx)
     ctx.label(f"build_surface={surf}", "n<=8" if n <= 8 else "n>40" if n > 40 else "n>8")
     ctx.nontrivial(not surf or rad != 1.0)
     pre = "sphere_fibonacci"
-    ok, m = ctx.call(pre, M.procedural.sphere_fibonacci, I(case, n), radius=Rv(case, rad), build_surface=surf)
+    ok, m = spelled_call(ctx, pre, M.procedural.sphere_fibonacci, case,
+                         [("n_pts", I(case, n)), ("radius", Rv(case, rad)), ("build_surface", B(case, surf))], 1, om)
     if not ok:
         return
     if surf:
@@ -1268,8 +1445,12 @@ def fn_fibonacci(case, ctx, A):
     d = np.linalg.norm(V, axis=1)
     ctx.check(float(np.max(np.abs(d - rad))) <= TOL * sc_of(case, rad), pre + ":on-sphere", f"distance to the origin in [{float(d.min())!r}, {float(d.max())!r}], requested radius {rad!r}")
     if n >= 2:
-        D = np.linalg.norm(V[:, None, :] - V[None, :, :], axis=2) + np.eye(n) * 1e9
-        ctx.check(float(D.min()) > 1e-6 * rad, pre + ":distinct", f"two sample points coincide (min distance {float(D.min())!r})")
+        if n <= 2000:
+            dmin = float((np.linalg.norm(V[:, None, :] - V[None, :, :], axis=2) + np.eye(n) * 1e9 * rad).min())
+        else:
+            from scipy.spatial import cKDTree
+            dmin = float(cKDTree(V).query(V, k=2)[0][:, 1].min())
+        ctx.check(dmin > 1e-6 * rad, pre + ":distinct", f"two sample points coincide (min distance {dmin!r})")
 
 
 # ================================================================================================ rings
@@ -1283,7 +1464,8 @@ def defect(src):
 
 def build_ring(p, src):
     N, wide = (p[0], "hazard") if p[0] > 10 else widen(src, p[0])
-    return {"gen": "ring", "N": N, "open": p[1], "n_cover": p[2], "defect": defect(src), "wide": wide}
+    case = {"gen": "ring", "N": N, "open": p[1], "n_cover": p[2], "defect": defect(src), "wide": wide}
+    return omit_defaults(src, case, {"open": False, "n_cover": 1})
 
 
 def fn_ring(case, ctx, A):
@@ -1295,7 +1477,8 @@ def fn_ring(case, ctx, A):
     ctx.nontrivial(opn or nc != 1)
     label_args(case, ctx)
     pre = "ring"
-    ok, m = ctx.call(pre, M.procedural.ring, I(case, N), Rv(case, defect), opn, I(case, nc))
+    ok, m = spelled_call(ctx, pre, M.procedural.ring, case,
+                         [("N", I(case, N)), ("defect", Rv(case, defect)), ("open", B(case, opn)), ("n_cover", I(case, nc))], 2, omitted(case))
     if not ok:
         return
     K = N * nc
@@ -1317,7 +1500,8 @@ def fn_ring(case, ctx, A):
 
 def build_flat_ring(p, src):
     N, wide = (p[0], "hazard") if p[0] > 10 else widen(src, p[0])
-    return {"gen": "flat_ring", "N": N, "n_cover": p[1], "defect": defect(src), "wide": wide}
+    case = {"gen": "flat_ring", "N": N, "n_cover": p[1], "defect": defect(src), "wide": wide}
+    return omit_defaults(src, case, {"n_cover": 1})
 
 
 def fn_flat_ring(case, ctx, A):
@@ -1329,7 +1513,8 @@ def fn_flat_ring(case, ctx, A):
     ctx.nontrivial(nc != 1)
     label_args(case, ctx)
     pre = "flat_ring"
-    ok, m = ctx.call(pre, M.procedural.flat_ring, I(case, N), Rv(case, defect), I(case, nc))
+    ok, m = spelled_call(ctx, pre, M.procedural.flat_ring, case,
+                         [("N", I(case, N)), ("defect", Rv(case, defect)), ("n_cover", I(case, nc))], 2, omitted(case))
     if not ok:
         return
     K = N * nc
@@ -1379,7 +1564,7 @@ def fn_flat(case, ctx, A):
     pre = gen
     sc = sc_of(case, P)
     if gen == "triangle":
-        ok, m = ctx.call(pre, M.procedural.triangle, *args)
+        ok, m = spelled_call(ctx, pre, M.procedural.triangle, case, list(zip(("P0", "P1", "P2"), args)), 3)
         if not ok:
             return
         r = check_surface(ctx, pre, m, nV=3, nF=1, arity=3, chi=1, loops=1, comps=1)
@@ -1387,10 +1572,8 @@ def fn_flat(case, ctx, A):
             check_close(ctx, pre + ":corners", r[0], P, sc, "vertices are not the three requested points in order", 1e-12)
             ctx.check(r[1][0] in ((0, 1, 2), (1, 2, 0), (2, 0, 1)), pre + ":orientation", f"the face {r[1][0]} does not run P0, P1, P2")
         return
-    if tri or case["explicit"]:
-        ok, m = ctx.call(pre, M.procedural.quad, *args, triangulate=tri)
-    else:
-        ok, m = ctx.call(pre, M.procedural.quad, *args)
+    ok, m = spelled_call(ctx, pre, M.procedural.quad, case, list(zip(("P0", "P1", "P2"), args)) + [("triangulate", B(case, tri))], 3,
+                         omitted(case, None if tri or case["explicit"] else "triangulate"))
     if not ok:
         return
     r = check_surface(ctx, pre, m, nV=4, nF=2 if tri else 1, arity=3 if tri else 4, chi=1, loops=1, comps=1)
@@ -1442,7 +1625,8 @@ def build_grid(p, src):
             nu, wide = widen(src, nu)
         else:
             nv, wide = widen(src, nv)
-    return {"gen": "unit_grid", "nu": nu, "nv": nv, "triangulate": p[2], "generate_uvs": p[3], "wide": wide}
+    case = {"gen": "unit_grid", "nu": nu, "nv": nv, "triangulate": p[2], "generate_uvs": p[3], "wide": wide}
+    return omit_defaults(src, case, {"triangulate": False, "generate_uvs": False})
 
 
 def fn_unit_grid(case, ctx, A):
@@ -1452,7 +1636,8 @@ def fn_unit_grid(case, ctx, A):
     ctx.nontrivial(nu != nv or tri or uvs)
     label_args(case, ctx)
     pre = "unit_grid"
-    ok, m = ctx.call(pre, M.procedural.unit_grid, I(case, nu), I(case, nv), triangulate=tri, generate_uvs=uvs)
+    ok, m = spelled_call(ctx, pre, M.procedural.unit_grid, case,
+                         [("nu", I(case, nu)), ("nv", I(case, nv)), ("triangulate", B(case, tri)), ("generate_uvs", B(case, uvs))], 2, omitted(case))
     if not ok:
         return
     cells = (nu - 1) * (nv - 1)
@@ -1467,7 +1652,8 @@ def fn_unit_grid(case, ctx, A):
 
 
 def build_unit_triangle(p, src):
-    return {"gen": "unit_triangle", "nu": p[0], "nv": p[1], "generate_uvs": p[2], "wide": "hazard" if p[0] > 13 else None}
+    case = {"gen": "unit_triangle", "nu": p[0], "nv": p[1], "generate_uvs": p[2], "wide": "hazard" if p[0] > 13 else None}
+    return omit_defaults(src, case, {"generate_uvs": False})
 
 
 def fn_unit_triangle(case, ctx, A):
@@ -1477,7 +1663,8 @@ def fn_unit_triangle(case, ctx, A):
     ctx.nontrivial(nu != nv or uvs)
     label_args(case, ctx)
     pre = "unit_triangle"
-    ok, m = ctx.call(pre, M.procedural.unit_triangle, I(case, nu), I(case, nv), generate_uvs=uvs)
+    ok, m = spelled_call(ctx, pre, M.procedural.unit_triangle, case,
+                         [("nu", I(case, nu)), ("nv", I(case, nv)), ("generate_uvs", B(case, uvs))], 2, omitted(case))
     if not ok:
         return
     n = nu if nu == nv else None     # |V| = n(n+1)/2 pinned by test_unit_triangle; no formula is documented for nu != nv
@@ -1504,6 +1691,7 @@ def fn_unit_triangle(case, ctx, A):
 POLYLINE_LATTICE = ([["chain_of_vertices", n, loop, K, ex] for n in range(1, 9) for loop in BOOL for K in (2, 3) for ex in BOOL
                      if (n >= 3 or not loop) and (ex or not loop)] +
                     [["vector_field", n, K, dflt] for n in range(1, 7) for K in (1, 2, 3) for dflt in BOOL] +
+                    [["chain_of_vertices", 0, False, 3, ex] for ex in BOOL] + [["vector_field", 0, 3, dflt] for dflt in BOOL] +
                     [["chain_of_vertices", n, bool(n % 2), 3, True] for n in POW2_N] + [["vector_field", n, 3, False] for n in (127, 128, 129)])
 
 
@@ -1523,9 +1711,15 @@ def build_polyline(p, src):
         _, n, loop, K, ex = p
         return {"gen": gen, "loop": loop, "dim": K, "points": rows(n, K), "explicit": ex, "scale": S, "int_args": ints, "array_dtype": dt}
     _, n, K, dflt = p
+    # vector_field converts its inputs with numpy.array ("sanitize input arrays"): nested lists / tuples and sequences of Vec too
+    form = src.choice(["ndarray"] * 3 + ["list", "tuple", "vecs", "vecs"]) if n >= 1 else "ndarray"
+    if form != "ndarray":
+        dt = "int64" if ints else "float64"
+    if form == "vecs" and K != 3:
+        form = "list"
     org = rows(n, K)
     vecs = rows(n, K)
-    return {"gen": gen, "dim": K, "origins": org, "vectors": vecs, "scale": S, "int_args": ints, "array_dtype": dt,
+    return {"gen": gen, "dim": K, "origins": org, "vectors": vecs, "scale": S, "int_args": ints, "array_dtype": dt, "seq_form": form,
             "length_mult": None if dflt else src.real(-5.0, 5.0, nice=[1.0, 0.5, -2.0, 0.0])}
 
 
@@ -1545,14 +1739,13 @@ def fn_polylines(case, ctx, A):
     f32 = 1e-6 if dt == "float32" else TOL        # results computed in the precision of the given arrays
     if gen == "chain_of_vertices":
         loop = bool(case["loop"])
-        pts = np.array(case["points"], dtype=float)
+        pts = np.array(case["points"], dtype=float).reshape(-1, int(case["dim"]))
         n = len(pts)
-        ctx.label(f"loop={loop}")
+        ctx.label(f"loop={loop}", "empty-input" if n == 0 else "one-vertex" if n == 1 else "n>=2")
         ctx.nontrivial(loop)
-        if loop or case["explicit"]:
-            ok, m = ctx.call(pre, M.procedural.chain_of_vertices, A.arr("vertices", pts, ints, dt), loop=loop)
-        else:
-            ok, m = ctx.call(pre, M.procedural.chain_of_vertices, A.arr("vertices", pts, ints, dt))
+        ok, m = spelled_call(ctx, pre, M.procedural.chain_of_vertices, case,
+                             [("vertices", A.arr("vertices", pts, ints, dt)), ("loop", B(case, loop))], 1,
+                             omitted(case, None if loop or case["explicit"] else "loop"))
         if not ok or not check_type(ctx, pre, m, "PolyLine"):
             return
         V = vertex_array(ctx, pre, m)
@@ -1563,14 +1756,16 @@ def fn_polylines(case, ctx, A):
         exp = [(i, i + 1) for i in range(n - 1)] + ([(0, n - 1)] if loop else [])
         ctx.check(sorted(key(e) for e in E) == sorted(exp), pre + ":edges", f"edges {E}; a {'closed' if loop else 'open'} chain of {n} vertices has {exp}")
         return
-    org, vecs = np.array(case["origins"], float), np.array(case["vectors"], float)
+    K = int(case["dim"])
+    org, vecs = np.array(case["origins"], float).reshape(-1, K), np.array(case["vectors"], float).reshape(-1, K)
     mult = case["length_mult"]
+    form = case.get("seq_form") or "ndarray"
+    ctx.label("collection=" + form, "empty-input" if len(org) == 0 else "n>=1")
     ctx.nontrivial(mult is not None and mult != 1.0)
-    if mult is None:
-        ok, m = ctx.call(pre, M.procedural.vector_field, A.arr("origins", org, ints, dt), A.arr("vectors", vecs, ints, dt))
-        mult = 1.0
-    else:
-        ok, m = ctx.call(pre, M.procedural.vector_field, A.arr("origins", org, ints, dt), A.arr("vectors", vecs, ints, dt), length_mult=float(mult))
+    ok, m = spelled_call(ctx, pre, M.procedural.vector_field, case,
+                         [("origins", A.seq("origins", org, form, ints, dt)), ("vectors", A.seq("vectors", vecs, form, ints, dt)),
+                          ("length_mult", None if mult is None else Rv(case, mult))], 2, omitted(case, "length_mult" if mult is None else None))
+    mult = 1.0 if mult is None else mult
     if not ok or not check_type(ctx, pre, m, "PolyLine"):
         return
     V = vertex_array(ctx, pre, m)
@@ -1588,7 +1783,7 @@ def fn_polylines(case, ctx, A):
 # ================================================================================================ transformations
 
 TRANSFORM_LATTICE = ([["spherify_vertices", n, k, form, dflt] for n in range(1, 5) for k in (0, 1, 2)
-                      for form in ("pointcloud", "array", "polyline") for dflt in BOOL] +
+                      for form in ("pointcloud", "array", "polyline", "vecs") for dflt in BOOL] +
                      [["cylindrify_edges", shape, N, dflt] for shape in ("path", "cycle", "star", "triangle_mesh", "segments")
                       for N in range(3, 9) for dflt in BOOL] +
                      [["cylindrify_edges", "path", N, False] for N in HAZARD if N <= 128])
@@ -1602,9 +1797,12 @@ def build_transform(p, src):
         if dflt:
             S = 1.0        # the default radius 1e-2 is absolute
         far = far_offset(src, S)
-        return {"gen": gen, "points": placed(distinct_points(src, n, sep=0.5, ints=ints), S, far), "n_subdiv": k, "form": form,
+        if form == "vecs":      # a plain sequence of Vec (the function iterates over whatever is not a mesh)
+            form = src.choice(["vecs", "vectuple"])
+        case = {"gen": gen, "points": placed(distinct_points(src, n, sep=0.5, ints=ints), S, far), "n_subdiv": k, "form": form,
                 "radius": None if dflt else float(src.real(0.01, 3.0) * S), "scale": S, "int_args": ints, "far": far,
                 "array_dtype": (src.choice(["int32", "int64"] if far else ["int16", "int32", "int64"]) if ints else "float64") if form == "array" else None}
+        return omit_defaults(src, case, {"n_subdiv": 1})
     _, shape, N, dflt = p
     n = src.integer(3, 6)
     S, ints = arg_class(src)
@@ -1621,8 +1819,9 @@ def build_transform(p, src):
         E = [[2 * i, 2 * i + 1] for i in range(n // 2)]
     else:
         E = []
-    return {"gen": gen, "shape": shape, "points": pts, "edges": E, "N": N, "radius": None if dflt else src.real(0.01, 0.5),
-            "scale": S, "int_args": ints, "far": far, "wide": wide}
+    case = {"gen": gen, "shape": shape, "points": pts, "edges": E, "N": N, "radius": None if dflt else src.real(0.01, 0.5),
+            "scale": S, "int_args": ints, "far": far, "wide": wide, "warm": src.choice([None, None, "fresh", "stale"])}
+    return omit_defaults(src, case, {"N": 50})
 
 
 def match_components(ctx, pre, V, ref, n_expected, fits, what):
@@ -1653,11 +1852,14 @@ def fn_transformations(case, ctx, A):
             inp = A.obj("points", lambda: pointcloud_from(P.tolist()), mesh_reader)
         elif form == "polyline":
             inp = A.obj("points", lambda: polyline_from(P.tolist(), [(i, i + 1) for i in range(len(P) - 1)]), mesh_reader)
+        elif form in ("vecs", "vectuple"):
+            inp = A.seq("points", P, form, case.get("int_args"))
         else:
             inp = A.arr("points", P, case.get("int_args"), case.get("array_dtype"))
-        kw = {} if rad is None else {"radius": float(rad)}
+        ok, m = spelled_call(ctx, pre, M.procedural.spherify_vertices, case,
+                             [("points", inp), ("radius", None if rad is None else Rv(case, rad)), ("n_subdiv", I(case, k))], 1,
+                             omitted(case, "radius" if rad is None else None))
         rad = 1e-2 if rad is None else float(rad)
-        ok, m = ctx.call(pre, M.procedural.spherify_vertices, inp, n_subdiv=I(case, k), **kw)
         if not ok:
             return
         n = len(P)
@@ -1676,15 +1878,19 @@ def fn_transformations(case, ctx, A):
     shape = case["shape"]
     ctx.label(gen, "input=" + shape)
     ctx.nontrivial(True)
+    warm = case.get("warm")
+    if warm:
+        ctx.label("input-used-before", "input-caches=" + warm)
     if shape == "triangle_mesh":
-        inp = A.obj("mesh", lambda: surface_from(P[:3].tolist(), [[0, 1, 2]]), mesh_reader)
+        inp = A.obj("mesh", lambda: used_before(M, lambda X: surface_from(X, [[0, 1, 2]]), P[:3], warm, sc_of(case, P)), mesh_reader)
         E = [(0, 1), (1, 2), (0, 2)] if M.config.complete_edges_from_faces else []     # the input surface then has no edges
     else:
         E = [tuple(e) for e in case["edges"]]
-        inp = A.obj("mesh", lambda: polyline_from(P.tolist(), E), mesh_reader)
-    kw = {} if rad is None else {"radius": float(rad)}
+        inp = A.obj("mesh", lambda: used_before(M, lambda X: polyline_from(X, E), P, warm, sc_of(case, P)), mesh_reader)
+    ok, m = spelled_call(ctx, pre, M.procedural.cylindrify_edges, case,
+                         [("mesh", inp), ("radius", None if rad is None else Rv(case, rad)), ("N", I(case, N))], 1,
+                         omitted(case, "radius" if rad is None else None))
     rad = 5e-2 if rad is None else float(rad)
-    ok, m = ctx.call(pre, M.procedural.cylindrify_edges, inp, N=I(case, N), **kw)
     if not ok:
         return
     nE = len(E)
@@ -1747,7 +1953,7 @@ def dual_case(draw):
     circ_ok = is_tri and G.min_angle_deg(s["V"], s["F"]) >= 10.0
     modes = [None, "barycenter", "Barycenter", "circumcenter", "circumcenter"] if circ_ok else [None, "barycenter", "BARYCENTER"]
     case = {"gen": "dual_mesh", "V": s["V"], "F": s["F"], "tags": s["tags"], "mode": draw(st.sampled_from(modes)),
-            "mode2": draw(st.sampled_from(modes))}
+            "mode2": draw(st.sampled_from(modes)), "warm": draw(st.sampled_from([None, None, "fresh", "stale"]))}
     case.update(common_flags(HypSrc(draw), case))
     return case
 
@@ -1768,11 +1974,13 @@ def fn_dual(case, ctx, A):
     ctx.label("mode=" + str(mode), f"modes={str(case['mode']).lower()}->{str(case.get('mode2')).lower()}")
     ctx.nontrivial(mode not in (None, "barycenter") or any(len(f) != 3 for f in Fp))
     pre = "dual_mesh"
-    prim = A.obj("mesh", lambda: surface_from(Vp.tolist(), Fp), mesh_reader)     # the same mesh object in both calls
-    if mode is None:
-        ok, m = ctx.call(pre, M.procedural.dual_mesh, prim)
-    else:
-        ok, m = ctx.call(pre, M.procedural.dual_mesh, prim, mode)
+    warm = case.get("warm")
+    if warm:
+        ctx.label("input-used-before", "input-caches=" + warm)
+    # the same mesh object in both calls
+    prim = A.obj("mesh", lambda: used_before(M, lambda X: surface_from(X, Fp), Vp, warm, sc_of(case, Vp)), mesh_reader)
+    ok, m = spelled_call(ctx, pre, M.procedural.dual_mesh, case, [("mesh", prim), ("mode", mode)], 1,
+                         omitted(case, "mode" if mode is None else None))
     if not ok:
         return
     r = check_surface(ctx, pre, m, nV=len(Fp), nF=len(Vp), chi=refp.euler(), loops=0, comps=refp.n_face_components())
@@ -1844,7 +2052,7 @@ def full_lattice():
         lat, build, _ = FAMILIES[name]
         for p in lat:
             for k in range(REAL_VARIANTS):
-                src = RngSrc(random.Random(zlib.crc32(repr((name, p, k)).encode())))
+                src = RngSrc(random.Random(zlib.crc32(repr((name, p, k)).encode())), no_omit=(k == 0))
                 case = build(p, src)
                 case.update(common_flags(src, tag_sizes(case)))
                 if k == 0:
@@ -1865,15 +2073,18 @@ LATTICE_CASES = full_lattice()
 def big_cases():
     """results whose vertex / face counts sit around 65536 (and 32768): a handful of realised cases, a few seconds each"""
     import random
-    pts = [("sphere_uv", [255, 257, False]), ("sphere_uv", [257, 255, False]), ("sphere_uv", [256, 256, False]),
+    pts = [("sphere_uv", [317, 317, False]),      # first = the case every quick run makes: 100491 vertices, 100489 faces
+           ("sphere_fibonacci", [100003, False]), ("polylines", ["chain_of_vertices", 100001, False, 3, True]),
+           ("polylines", ["vector_field", 50001, 3, False]), ("unit_grid", [317, 317, False, False]),
+           ("sphere_uv", [255, 257, False]), ("sphere_uv", [257, 255, False]), ("sphere_uv", [256, 256, False]),
            ("torus", [255, 257, False]), ("torus", [256, 256, False]), ("torus", [257, 255, True]), ("torus", [128, 128, True]),
            ("unit_grid", [256, 256, False, False]), ("unit_grid", [255, 257, True, False]),
            ("cylinder", [32767, False, "random"]), ("cylinder", [32768, False, "z"]), ("cylinder", [16384, False, "x"]),
            ("polylines", ["chain_of_vertices", 65536, True, 3, True]), ("polylines", ["vector_field", 32768, 3, False])]
     out = []
     for k, (name, p) in enumerate(pts):
-        case = build_of(name)(p, RngSrc(random.Random(1000 + k)))
-        case.update(np_ints=False, int_scalars=False, config={}, family=name)
+        case = build_of(name)(p, RngSrc(random.Random(1000 + k), no_omit=True))
+        case.update(np_ints=False, int_scalars=False, config={}, family=name, spell=("mixed", "pos", "kw")[k % 3])
         case["wide"] = "pow2"
         out.append(case)
     return out
